@@ -11,11 +11,11 @@ LIBS = ["coeffs/coeffs_arithmetic.c", "coeffs/coeffs_arithmetic_avx.c", "arithme
         "q120/q120_arithmetic_simple.c", "commons.c", "commons_private.c"]
 APIN = {1: "vec_znx_dft", 2: "vec_znx_idft", 3: "vec_znx_idft_tmp_a", 4: "svp_prepare", 5: "svp_apply_dft", 6: "znx_small_single_product",
         7: "vmp_prepare_contiguous", 8: "vmp_apply_dft", 9: "vmp_apply_dft_to_dft", 10: "bytes_of"}
-NNS_ALL = (2, 4, 8, 16, 32)
+NNS_ALL = (1, 2, 4, 8, 16, 32)
 
 
 def tables(ctx):
-    return core.tables_dir(ctx, tuple(sorted({n // 2 for n in NNS_ALL} | {1})), NNS_ALL)
+    return core.tables_dir(ctx, tuple(sorted({n // 2 for n in NNS_ALL if n >= 2} | {1})), NNS_ALL)
 
 
 def api_ob(tdir, api, nn, mt=0, avx=0, rsz=2, asz=2, asl=None, nrows=2, ncols=2, offs=0, flags=("--slice-formula",), tag="", timeout=None):
